@@ -17,7 +17,7 @@ from mc.statespace import StateSpace
 from checks.common import make_decider, make_rep, is_library_error
 
 GENES = [0, 1, 2, 3, MAXSIZE]
-GENES_DSGE = [0, 1, 2, 3, 1024]
+GENES_DSGE = [0, 1, 2, 3, 1024, 1025, MAXSIZE]  # creation draws 0..1024, mutation writes 0..maxsize
 
 
 @dataclass
@@ -192,6 +192,15 @@ def _map(ctx: Ctx) -> Iterator[Event]:
                         depth_limit=None if rep_kind == "stack" else d, extra={"dna": dna})
 
 
+
+def dsge_populate(rep, gt):
+    """dSGE genotypes only get genes when they are mapped: map every fresh genotype once."""
+    try:
+        rep.genotype_to_phenotype(gt)
+    except Exception:  # noqa -- failing mappings are observed by the checks themselves
+        pass
+
+
 def _e2(ctx: Ctx) -> Iterator[Event]:
     u = ctx.unit
     rep_kind = u["rep"]
@@ -218,6 +227,7 @@ def _e2(ctx: Ctx) -> Iterator[Event]:
         horizon=u.get("horizon", 400),
         source_kwargs=skw,
         ops=tuple(u.get("ops", ("mutate", "crossover"))),
+        post=dsge_populate if rep_kind == "dsge" else None,
     )
     ctx.e2 = ss
     pending: list = []
@@ -270,7 +280,7 @@ def standard_units(tier: str, family=None, deciders=("maxdepth", "full", "pigrow
             us.append({"kind": "tree-create", "spec": spec, "decider": "pt", "depth_off": 0, "horizon": 40,
                        "max_execs": 400 if tier == "quick" else 5000})
     small = [s for s in fam if s["name"].split(":")[0] in
-             ("S1", "S2", "S3", "S5", "S6", "S7", "S8", "S9", "S10", "S11", "S12", "S13", "S14", "S15", "S16", "S17", "S18")]
+             ("S1", "S2", "S3", "S5", "S6", "S7", "S8", "S9", "S10", "S11", "S12", "S13", "S14", "S15", "S16", "S17", "S18", "S19")]
     small += [s for s in fam if s["name"].startswith(("F1:", "G1:"))]
     if tier != "quick":
         small = fam
